@@ -9,22 +9,6 @@ namespace Genshi.Match
 open Genshi
 variable {σ : Type}
 
-/-! ### the specification -/
-
-mutual
-  /-- rewrite one node; `anc` = the open ancestors (innermost first), `b` = the matcher's base state -/
-  def specNode (t : MT σ) (b : σ) (anc : List Open) : Node → List Event
-    | .leaf e => [e]
-    | .elem tg at_ kids =>
-      if (t.step (openSt t.step b anc) (.start tg at_) false).2 then
-        instantiate t.body (.start tg at_ ::
-          ((if t.recursive then specList t b ((tg, at_) :: anc) kids else flattenList kids) ++ [.end_ tg]))
-      else .start tg at_ :: (specList t b ((tg, at_) :: anc) kids ++ [.end_ tg])
-  def specList (t : MT σ) (b : σ) (anc : List Open) : List Node → List Event
-    | [] => []
-    | n :: ns => specNode t b anc n ++ specList t b anc ns
-end
-
 /-! ### empty windows -/
 
 theorem scanP_nowin (e : Event) : ∀ (N : List (MT σ)) (v : Nat → Bool), (∀ p, v p = false) → scanP v e N = (N, none) := by
